@@ -97,8 +97,6 @@ def g_options_strategy(top, orthogonal=None):
         nxs = st.integers(1, 4)
         o["nx_core"] = draw(nxs)
         o["nx_sol"] = draw(nxs)
-        if draw(st.integers(0, 3)) == 0:
-            o["nx_pf"] = draw(nxs)
         nys = st.one_of(st.integers(3, 6), st.integers(3, 10))
         double = top in ("cdn", "udn", "ldn", "udn2", "ldn2")
         if not double:
@@ -119,8 +117,11 @@ def g_options_strategy(top, orthogonal=None):
                 o["nx_inter_sep"] = draw(st.sampled_from([1, 1, 2]))
             elif top in ("udn2", "ldn2"):
                 o["nx_inter_sep"] = draw(st.sampled_from([0, 1]))
-            if draw(st.integers(0, 3)) == 0:
-                o["nx_sol_inner"] = draw(nxs)
+        # guard cells extend the legs beyond the targets by whole cells; with few, long cells
+        # per leg they would leave the domain of the psi array
+        legs = [v for k, v in o.items() if k.startswith("ny_") and "divertor" in k]
+        gmax = 1 if min(legs) <= 4 else (2 if min(legs) <= 7 else 3)
+        o["y_boundary_guards"] = min(o["y_boundary_guards"], gmax)
         o["psinorm_core"] = _round(draw(st.floats(0.8, 0.95)), 3)
         o["psinorm_sol"] = _round(draw(st.floats(1.06, 1.2)), 3)
         o["psinorm_pf"] = _round(draw(st.floats(0.85, 0.96)), 3)
@@ -136,16 +137,16 @@ def g_options_strategy(top, orthogonal=None):
         )
         o["poloidal_spacing_method"] = draw(st.sampled_from(["sqrt", "sqrt", "monotonic", "linear"]))
         if draw(st.integers(0, 3)) == 0:
-            o["refine_atol"] = draw(st.sampled_from([1e-9, 1e-8, 1e-7, 1e-6]))
+            o["refine_atol"] = draw(st.sampled_from([1e-8, 1e-7, 1e-6]))
         if draw(st.integers(0, 3)) == 0:
             o["refine_methods"] = draw(
                 st.sampled_from(
                     [
-                        "integrate+newton",
+                        ["integrate+newton", "line"],
                         ["integrate+newton", "integrate"],
                         ["newton", "line"],
                         ["line", "integrate"],
-                        "integrate",
+                        ["integrate", "line"],
                     ]
                 )
             )
@@ -240,6 +241,10 @@ def label(desc):
     return desc["family"]
 
 
+def c_label(desc):
+    return "C/q%d" % len(desc["options"]["q_coefficients"])
+
+
 def coarse_label(desc):
     o = desc["options"]
     if desc["family"] == "G":
@@ -294,8 +299,8 @@ def base_corpus(tier, seed):
     """The shared corpus of complete-grid descriptors (tokamak G family + circular)."""
     from hypothesis import strategies as st
 
-    n_g = 20 if tier == "quick" else 200
+    n_g = 24 if tier == "quick" else 200
     n_c = 4 if tier == "quick" else 30
     g = collect(g_case_strategy(), n_g, seed)
-    c = collect(c_case_strategy(), n_c, seed + 1, keyfn=label)
+    c = collect(c_case_strategy(), n_c, seed + 1, keyfn=c_label)
     return g + c
